@@ -1,12 +1,237 @@
 /-
-C02 - placers return a feasible placement or fail with a documented error.
+C02 - every placer returns a feasible, constraint-respecting placement or fails with a
+documented error.  Property theorems; the lemmas are in RigModel/Lemmas/C02*.lean.
 -/
-import RigModel.Model.C02
+import RigModel.Lemmas.C02Merge2
 set_option linter.unusedSimpArgs false
 set_option linter.unusedVariables false
 
 namespace Rig.C02
 
-theorem over_nil : over [] = false := rfl
+/-- the documented domain of the placers: `vertices_resources` is a dictionary (distinct keys) of
+the caller's own vertices, requirements and chip resources are non-negative -/
+structure WF (vr : VR) (cs : List Constraint) (m : Machine) : Prop where
+  nodup : (keys vr).Nodup
+  original : Original vr cs
+  nonnegVR : NonNegVR vr
+  nonnegCap : NonNegCap m
+
+/-- a same-chip group is never pinned to two different chips ("consistent mixes" of constraints):
+stated on the constraint list after the groups have been merged -/
+def Consistent (vr : VR) (cs : List Constraint) : Prop :=
+  ∀ vr' cs' subs, applySame vr cs = .ok (vr', cs', subs) → LocConsistent cs'
+
+/-- reservations lie inside the resources of every chip (documented precondition of
+`ReserveResourceConstraint`); only needed when there is no vertex at all, in which case
+`sequential.place` and `sa.place` return `{}` without looking at the constraints -/
+def EmptyOK (vr : VR) (cs : List Constraint) (m : Machine) : Prop :=
+  vr = [] → (∀ c, m.ok c = true → ∀ i, i < (cap m c).length → reserved cs c i ≤ dem (cap m c) i) ∧
+    ∀ v c, Constraint.loc v c ∉ cs
+
+private theorem feasible_empty {cs : List Constraint} {m : Machine} (h : EmptyOK [] cs m) :
+    Feasible [] cs m [] where
+  keysNodup := by simp [keys]
+  placed := by intro v hv; simp [keys] at hv
+  onlyVertices := by intro v hv; simp [keys] at hv
+  capacity := by intro c hc i hi; have := (h rfl).1 c hc i hi; simpa [load] using this
+  location := by intro v c hvc; exact absurd hvc ((h rfl).2 v c)
+  sameChip := by intro vs _ a _ b _; simp [aget]
+
+private theorem sameTrivial_of_inv {vr : VR} {cs : List Constraint} {subs : List (List Vtx)}
+    (I : MInv cs.length vr cs subs) : SameTrivial cs := by
+  intro vs hvs
+  obtain ⟨j, hj⟩ := List.mem_iff_getElem?.1 hvs
+  have hlt : j < cs.length := by
+    rcases Nat.lt_or_ge j cs.length with h | h
+    · exact h
+    · rw [List.getElem?_eq_none h] at hj; simp at hj
+  exact I.const j hlt vs hj
+
+private theorem inv_after_prepare {vr' : VR} {cs' : List Constraint} {m m' : Machine} {fixed : Placement}
+    (hn : (keys vr').Nodup) (hnn : NonNegVR vr') (hc : NonNegCap m)
+    (h : prepareLoop vr' cs' m [] = .ok (m', fixed)) :
+    Inv vr' m (fun c i => reserved cs' c i) m' fixed := by
+  have := Inv.prepare hn hnn cs' _ m [] m' fixed (Inv.init vr' m hc) h
+  have e : (fun c i => (0 : Int) + reserved cs' c i) = fun c i => reserved cs' c i := by
+    funext c i; omega
+  rw [← e]; exact this
+
+/-- common end of the three proofs: a loop result on the merged problem expands to a feasible
+placement of the caller's problem -/
+private theorem finish {vr vr' : VR} {cs cs' : List Constraint} {m m' : Machine} {subs : List (List Vtx)}
+    {fixed pf p : Placement} (O : MergeOut m vr cs [] vr' cs' subs) (hcons : LocConsistent cs')
+    (hprep : prepareLoop vr' cs' m [] = .ok (m', fixed))
+    (mf : Machine) (I : Inv vr' m (fun c i => reserved cs' c i) mf pf)
+    (hmono : ∀ v c, aget fixed v = some c → aget pf v = some c)
+    (hall : ∀ v ∈ keys vr', (aget pf v).isSome)
+    (hfin : finalise subs pf = .ok p) : Feasible vr cs m p := by
+  have hloc : ∀ v c, Constraint.loc v c ∈ cs' → aget pf v = some c :=
+    fun v c hvc => hmono v c (prepare_loc hprep hcons v c hvc)
+  have hst : SameTrivial cs' := sameTrivial_of_inv (by simpa using O.inv)
+  have F := feasible_of_inv I hall hloc hst
+  obtain ⟨p0, hp0, F0⟩ := O.back pf F
+  simp only [finalise, List.length_nil] at hfin hp0
+  rw [hp0] at hfin; injection hfin with e; subst e; exact F0
+
+/-- **Sequential placer (hence Hilbert, RCM, breadth-first).**  For EVERY vertex order that
+lists each vertex and EVERY chip order, a returned placement is feasible. -/
+theorem seqPlace_sound (vr : VR) (cs : List Constraint) (m : Machine)
+    (vertexOrder : Option (List Vtx)) (chipOrder : Option (List Chip)) (p : Placement)
+    (wf : WF vr cs m) (hcons : Consistent vr cs) (hempty : EmptyOK vr cs m)
+    (hvo : ∀ vo, vertexOrder = some vo → ∀ v ∈ keys vr, v ∈ vo)
+    (h : seqPlace vr cs m vertexOrder chipOrder = .ok p) : Feasible vr cs m p := by
+  unfold seqPlace at h
+  split at h
+  · rename_i h0
+    have : vr = [] := List.eq_nil_of_length_eq_zero h0
+    subst this; injection h with h; subst h
+    exact feasible_empty hempty
+  · cases hA : applySame vr cs with
+    | error e => simp [hA, bind, Except.bind] at h
+    | ok r =>
+      obtain ⟨vr', cs', subs⟩ := r
+      have O := applySame_spec m wf.nodup wf.original hA
+      have hn' : (keys vr').Nodup := O.inv.nodup
+      have hnn' := O.nonneg wf.nonnegVR
+      cases hP : prepareLoop vr' cs' m [] with
+      | error e => simp [hA, hP, bind, Except.bind] at h
+      | ok r2 =>
+        obtain ⟨m', fixed⟩ := r2
+        have I0 := inv_after_prepare hn' hnn' wf.nonnegCap hP
+        have core : ∀ order pf, (∀ v ∈ keys vr', v ∈ order) →
+            seqLoop vr' ((chipOrder.getD m'.chips).filter m'.ok) order 0 m' fixed = .ok pf →
+            finalise subs pf = .ok p → Feasible vr cs m p := by
+          intro order pf hcover hL h
+          obtain ⟨⟨mf, If⟩, hmono, hall⟩ := seqLoop_inv hn' hnn' _ _ _ _ _ _ I0 hL
+          exact finish O (hcons _ _ _ hA) hP mf If hmono (fun v hv => hall v (hcover v hv)) h
+        cases vertexOrder with
+        | none =>
+          simp only [hA, hP, bind, Except.bind, pure, Except.pure] at h
+          split at h
+          · simp at h
+          · cases hL : seqLoop vr' ((chipOrder.getD m'.chips).filter m'.ok) (keys vr') 0 m' fixed with
+            | error e => simp [hL] at h
+            | ok pf => simp only [hL] at h; exact core _ pf (fun v hv => hv) hL h
+        | some vo =>
+          cases hS : substOrder 0 subs vo with
+          | error e => simp [hA, hP, hS, bind, Except.bind] at h
+          | ok order =>
+            simp only [hA, hP, hS, bind, Except.bind] at h
+            split at h
+            · simp at h
+            · cases hL : seqLoop vr' ((chipOrder.getD m'.chips).filter m'.ok) order 0 m' fixed with
+              | error e => simp [hL] at h
+              | ok pf =>
+                simp only [hL] at h
+                exact core order pf (O.order vo order (hvo vo rfl) hS) hL h
+
+/-- **Random placer.**  For EVERY sequence of chips the random number generator may draw. -/
+theorem randPlace_sound (vr : VR) (cs : List Constraint) (m : Machine) (picks : List Chip) (p : Placement)
+    (wf : WF vr cs m) (hcons : Consistent vr cs)
+    (h : randPlace vr cs m picks = .ok p) : Feasible vr cs m p := by
+  unfold randPlace at h
+  cases hA : applySame vr cs with
+  | error e => simp [hA, bind, Except.bind] at h
+  | ok r =>
+    obtain ⟨vr', cs', subs⟩ := r
+    have O := applySame_spec m wf.nodup wf.original hA
+    have hn' : (keys vr').Nodup := O.inv.nodup
+    have hnn' := O.nonneg wf.nonnegVR
+    cases hP : prepareLoop vr' cs' m [] with
+    | error e => simp [hA, hP, bind, Except.bind] at h
+    | ok r2 =>
+      obtain ⟨m', fixed⟩ := r2
+      have I0 := inv_after_prepare hn' hnn' wf.nonnegCap hP
+      simp only [hA, hP, bind, Except.bind] at h
+      split at h
+      · simp at h
+      · rename_i pf hL
+        have hfree : ∀ v ∈ (keys vr').filter (fun v => !(aget fixed v).isSome), aget fixed v = none := by
+          intro v hv
+          simp only [List.mem_filter] at hv
+          cases hx : aget fixed v with
+          | none => rfl
+          | some x => simp [hx] at hv
+        obtain ⟨⟨mf, If⟩, hmono, hall⟩ :=
+          randLoop_inv hn' hnn' _ _ _ _ _ _ I0 hfree (List.Nodup.sublist List.filter_sublist hn') hL
+        refine finish O (hcons _ _ _ hA) hP mf If hmono (fun v hv => ?_) h
+        cases hx : aget fixed v with
+        | none => exact hall v (by simp [List.mem_filter, hv, hx])
+        | some x => simp [hmono v x hx]
+
+/-- **The oracle is the specification.**  The decidable check the harness runs on every placement
+returned by the implementation is equivalent to `Feasible`. -/
+theorem validPlacement_iff (vr : VR) (cs : List Constraint) (m : Machine) (p : Placement) :
+    validPlacement vr cs m p = true ↔ Feasible vr cs m p := by
+  have h2 : ((keys vr).all (vertexOk m p)) = true ↔
+      ∀ v, v ∈ keys vr → ∃ c, aget p v = some c ∧ m.ok c = true := by
+    simp only [List.all_eq_true]
+    constructor
+    · intro h v hv
+      have := h v hv
+      unfold vertexOk at this
+      cases hx : aget p v with
+      | none => simp [hx] at this
+      | some c => simp [hx] at this; exact ⟨c, rfl, this⟩
+    · intro h v hv
+      obtain ⟨c, h1, h2⟩ := h v hv
+      simp [vertexOk, h1, h2]
+  have h3 : ((keys p).all (fun v => (keys vr).contains v)) = true ↔ ∀ v, v ∈ keys p → v ∈ keys vr := by
+    simp [List.all_eq_true]
+  have h4 : (m.chips.all (chipFits vr cs m p)) = true ↔
+      ∀ c, m.ok c = true → ∀ i, i < (cap m c).length → load vr p c i + reserved cs c i ≤ dem (cap m c) i := by
+    simp only [chipFits, List.all_eq_true, mem_chips_iff, List.mem_range, decide_eq_true_eq]
+  have h5 : (cs.all (constraintOk p)) = true ↔
+      (∀ v c, Constraint.loc v c ∈ cs → aget p v = some c) ∧
+      (∀ vs, Constraint.same vs ∈ cs → ∀ a ∈ vs, ∀ b ∈ vs, aget p a = aget p b) := by
+    simp only [List.all_eq_true]
+    constructor
+    · intro h
+      refine ⟨fun v c hvc => ?_, fun vs hvs a ha b hb => ?_⟩
+      · simpa [constraintOk] using h _ hvc
+      · have := h _ hvs
+        simp only [constraintOk, List.all_eq_true, decide_eq_true_eq] at this
+        exact this a ha b hb
+    · rintro ⟨h1, h2⟩ k hk
+      cases k with
+      | loc v c => simpa [constraintOk] using h1 v c hk
+      | same vs =>
+        simp only [constraintOk, List.all_eq_true, decide_eq_true_eq]
+        exact h2 vs hk
+      | reserve r a c => rfl
+      | endpoint v => rfl
+      | other => rfl
+  unfold validPlacement checkPlacement
+  constructor
+  · intro h
+    split at h
+    · simp at h
+    · rename_i c1
+      split at h
+      · simp at h
+      · rename_i c2
+        split at h
+        · simp at h
+        · rename_i c3
+          split at h
+          · simp at h
+          · rename_i c4
+            split at h
+            · simp at h
+            · rename_i c5
+              simp only [Bool.not_eq_true', Bool.not_eq_false, Bool.not_eq_true] at c1 c2 c3 c4 c5
+              have c1' : (keys p).Nodup := by simpa using c1
+              have c5' := h5.1 (by simpa using c5)
+              exact ⟨c1', h2.1 (by simpa using c2), h3.1 (by simpa using c3), h4.1 (by simpa using c4),
+                c5'.1, c5'.2⟩
+  · intro F
+    have c1 : decide (keys p).Nodup = true := by simpa using F.keysNodup
+    have c2 := h2.2 F.placed
+    have c3 := h3.2 F.onlyVertices
+    have c4 := h4.2 F.capacity
+    have c5 := h5.2 ⟨F.location, F.sameChip⟩
+    rw [if_neg (by simp [c1]), if_neg (by simp [c2]), if_neg (by rw [c3]; simp), if_neg (by simp [c4]),
+      if_neg (by simp [c5])]
+    rfl
 
 end Rig.C02
